@@ -346,6 +346,13 @@ class Normalizer:
                 continue
             if isinstance(st, (ast.For, ast.While)):
                 if isinstance(st, ast.While):
+                    rot = self._rotate_while_true(st)
+                    if rot is not None:
+                        # N27: `while True: A; if c: break; B`  is  `A; while not c: B; A`
+                        r_pre = self.block(rot[0], env)
+                        if r_pre[0] != 'env':
+                            raise Unsupported('return in the head of a rotated loop')
+                        st = rot[1]
                     st = self._counting_while(st, env) or st
                 if self._unroll(st, env):
                     continue
@@ -480,6 +487,26 @@ class Normalizer:
 
     UNROLL_MAX = 8
 
+    @staticmethod
+    def _rotate_while_true(st):
+        if not (isinstance(st.test, ast.Constant) and st.test.value is True and not st.orelse):
+            return None
+        brk = [k_ for k_, s_ in enumerate(st.body) if isinstance(s_, ast.If) and not s_.orelse and len(s_.body) == 1 and isinstance(s_.body[0], ast.Break)]
+        others = [n for s_ in st.body for n in ast.walk(s_) if isinstance(n, (ast.Break, ast.Continue, ast.Return))]
+        if len(brk) != 1 or len(others) != 1:
+            return None
+        k_ = brk[0]
+        head, tail = st.body[:k_], st.body[k_ + 1:]
+        if not head:
+            return None
+        import copy as _copy
+        cond = st.body[k_].test
+        neg = cond.operand if (isinstance(cond, ast.UnaryOp) and isinstance(cond.op, ast.Not)) else ast.UnaryOp(op=ast.Not(), operand=cond)
+        new = ast.While(test=_copy.deepcopy(neg), body=[_copy.deepcopy(s_) for s_ in tail] + [_copy.deepcopy(s_) for s_ in head], orelse=[])
+        ast.copy_location(new, st)
+        ast.fix_missing_locations(new)
+        return head, new
+
     def _counting_while(self, st, env):
         """N25: `while k < n: body; k += 1` with k a local bound before the loop, not otherwise assigned in the body, no break /
         continue and a bound the body does not re-bind, is `for k in range(<k before>, n): body` (the counter's value after the
@@ -488,7 +515,12 @@ class Normalizer:
         if st.orelse or not (isinstance(t, ast.Compare) and len(t.ops) == 1 and st.body):
             return None
         l, op, r = t.left, t.ops[0], t.comparators[0]
-        if isinstance(op, ast.Gt):
+        down = False
+        if isinstance(op, (ast.Gt, ast.GtE)) and isinstance(l, ast.Name) and not isinstance(r, ast.Name):
+            down = True                       # `while k >= b` / `while k > b` counting down
+        elif isinstance(op, (ast.Lt, ast.LtE)) and isinstance(r, ast.Name) and not isinstance(l, ast.Name):
+            down, l, r, op = True, r, l, (ast.GtE() if isinstance(op, ast.LtE) else ast.Gt())
+        elif isinstance(op, ast.Gt):
             l, r = r, l
         elif not isinstance(op, ast.Lt):
             return None
@@ -496,10 +528,11 @@ class Normalizer:
             return None
         k = l.id
         last = st.body[-1]
-        inc = (isinstance(last, ast.AugAssign) and isinstance(last.op, ast.Add) and isinstance(last.target, ast.Name) and last.target.id == k
+        step_op = ast.Sub if down else ast.Add
+        inc = (isinstance(last, ast.AugAssign) and isinstance(last.op, step_op) and isinstance(last.target, ast.Name) and last.target.id == k
                and isinstance(last.value, ast.Constant) and last.value.value == 1) or \
               (isinstance(last, ast.Assign) and len(last.targets) == 1 and isinstance(last.targets[0], ast.Name) and last.targets[0].id == k
-               and isinstance(last.value, ast.BinOp) and isinstance(last.value.op, ast.Add) and isinstance(last.value.left, ast.Name)
+               and isinstance(last.value, ast.BinOp) and isinstance(last.value.op, step_op) and isinstance(last.value.left, ast.Name)
                and last.value.left.id == k and isinstance(last.value.right, ast.Constant) and last.value.right.value == 1)
         if not inc:
             return None
@@ -527,8 +560,14 @@ class Normalizer:
         init = env[k]
         start_name = '$while_start_%d' % st.lineno
         env[start_name] = init
+        if down:
+            # while k >= b -> range(k0, b - 1, -1) ; while k > b -> range(k0, b, -1)
+            stop = ast.BinOp(left=r, op=ast.Sub(), right=ast.Constant(value=1)) if isinstance(op, ast.GtE) else r
+            rng_args = [ast.Name(id=start_name, ctx=ast.Load()), stop, ast.UnaryOp(op=ast.USub(), operand=ast.Constant(value=1))]
+        else:
+            rng_args = [ast.Name(id=start_name, ctx=ast.Load()), r]
         new = ast.For(target=ast.Name(id=k, ctx=ast.Store()),
-                      iter=ast.Call(func=ast.Name(id='range', ctx=ast.Load()), args=[ast.Name(id=start_name, ctx=ast.Load()), r], keywords=[]),
+                      iter=ast.Call(func=ast.Name(id='range', ctx=ast.Load()), args=rng_args, keywords=[]),
                       body=body or [ast.Pass()], orelse=[])
         ast.copy_location(new, st)
         ast.fix_missing_locations(new)
@@ -630,6 +669,13 @@ class Normalizer:
                     header = ('for', ('call', 'range', (trip,), ()))
                     self.loop_headers[d] = header
                     benv[tv[0]] = self.binop('+', ('iv', d), a_)
+                elif h_[0] == 'call' and h_[1] == 'range' and len(h_[2]) == 3 and not h_[3] and is_num(h_[2][2], -1) \
+                        and self.is_int_term(h_[2][0]) and self.is_int_term(h_[2][1]):
+                    # descending: `for i in range(a, b, -1)` is `for j in range(a - b)` with i = a - j
+                    a_, b_ = h_[2][0], h_[2][1]
+                    header = ('for', ('call', 'range', (self.binop('-', a_, b_),), ()))
+                    self.loop_headers[d] = header
+                    benv[tv[0]] = self.binop('-', a_, ('iv', d))
             else:
                 header = ('while', self.expr(st.test, benv))
             r = self.block(st.body, benv)
@@ -876,11 +922,60 @@ class Normalizer:
             return v
         return ('T', v)
 
+    def _lin(self, t):
+        """integer-valued term -> ({atom: coefficient}, constant) or None"""
+        if is_num(t):
+            return ({}, t[1])
+        if t[0] == 'bin' and t[1] in ('+', '-'):
+            x, y = self._lin(t[2]), self._lin(t[3])
+            if x is None or y is None:
+                return None
+            sg = 1 if t[1] == '+' else -1
+            d = dict(x[0])
+            for k_, c_ in y[0].items():
+                d[k_] = d.get(k_, 0) + sg * c_
+            return ({k_: c_ for k_, c_ in d.items() if c_ != 0}, x[1] + sg * y[1])
+        if t[0] == 'bin' and t[1] == '*' and (is_num(t[2]) or is_num(t[3])):
+            c_, x = (t[2][1], self._lin(t[3])) if is_num(t[2]) else (t[3][1], self._lin(t[2]))
+            if x is None:
+                return None
+            return ({k_: v_ * c_ for k_, v_ in x[0].items() if v_ * c_ != 0}, x[1] * c_)
+        if t[0] == 'neg':
+            x = self._lin(t[1])
+            return None if x is None else ({k_: -v_ for k_, v_ in x[0].items()}, -x[1])
+        return ({t: 1}, 0)
+
+    def _unlin(self, lin):
+        d, c = lin
+        items = sorted(d.items(), key=lambda kv: repr(kv[0]))
+        pos = [(a_, k_) for a_, k_ in items if k_ > 0]
+        neg = [(a_, -k_) for a_, k_ in items if k_ < 0]
+
+        def mono(a_, k_):
+            return a_ if k_ == 1 else ('bin', '*', num(k_), a_)
+        out = None
+        for a_, k_ in pos:
+            out = mono(a_, k_) if out is None else ('bin', '+', out, mono(a_, k_))
+        if out is None:
+            out = num(c)
+            c = 0
+        for a_, k_ in neg:
+            out = ('bin', '-', out, mono(a_, k_))
+        if c > 0:
+            out = ('bin', '+', out, num(c))
+        elif c < 0:
+            out = ('bin', '-', out, num(-c))
+        return out
+
     def is_int_term(self, t):
         if not isinstance(t, tuple) or not t:
             return False
-        if t[0] == 'iv':
+        if t[0] in ('iv', 'bv'):
             return True
+        if t[0] == 'idx' and len(t) == 3 and isinstance(t[1], tuple) and t[1][0] == 'attr' and t[1][2] == 'shape' and len(t[2]) == 1 and is_num(t[2][0]):
+            return True
+        if t[0] == 'neg':
+            return self.is_int_term(t[1])
         if t[0] == 'num':
             return float(t[1]).is_integer()
         if t[0] == 'call' and t[1] in ('len', 'int'):
@@ -896,13 +991,12 @@ class Normalizer:
     def binop(self, op, a, b):
         if op == '@':
             return self.dot(a, b)
-        # integer counters: (j + 1) - 1 is j (exact for the integer-valued terms loop counters are made of)
-        if op in ('+', '-') and is_num(b) and float(b[1]).is_integer() and isinstance(a, tuple) and a[0] == 'bin' and a[1] in ('+', '-') \
-                and is_num(a[3]) and float(a[3][1]).is_integer() and self.is_int_term(a[2]):
-            c = (a[3][1] if a[1] == '+' else -a[3][1]) + (b[1] if op == '+' else -b[1])
-            if c == 0:
-                return a[2]
-            return ('bin', '+' if c > 0 else '-', a[2], num(abs(c)))
+        # integer counters: sums / differences of integer-valued terms (loop counters, len(), constants) have one canonical form, so
+        # (j + 1) - 1 is j and (n - 1) - j - 1 is (n - 2) - j  (exact: these are integers)
+        if op in ('+', '-') and self.is_int_term(a) and self.is_int_term(b) and not (is_num(a) and is_num(b)):
+            lin = self._lin(('bin', op, a, b))
+            if lin is not None:
+                return self._unlin(lin)
         # N24: element-wise arithmetic of a scalar with a one-element array is that arithmetic on the element
         if op in ('+', '-', '*', '/') and self._one_cell(a) != self._one_cell(b):
             blk, other, left = (a, b, True) if self._one_cell(a) else (b, a, False)
@@ -1354,9 +1448,13 @@ class Normalizer:
         return ('call', fn, args, kwargs)
 
     def int_add(self, t, k):
-        """t + k for an integer-valued term (range bounds): constants fold through one +/- level"""
+        """t + k for an integer-valued term (range bounds), in the canonical form of integer sums"""
         if is_num(t):
             return num(t[1] + k)
+        if self.is_int_term(t):
+            lin = self._lin(('bin', '+', t, num(k)))
+            if lin is not None:
+                return self._unlin(lin)
         if t[0] == 'bin' and t[1] in ('+', '-') and is_num(t[3]):
             c = (t[3][1] if t[1] == '+' else -t[3][1]) + k
             if c == 0:
